@@ -540,6 +540,42 @@ def iter_concrete(ip, v):
 
 # ------------------------------------------------------------------------------------------ containers
 
+class Measure:
+    def __init__(self, name, sort, weight, nonneg=True):
+        self.name = name
+        self.sort = sort
+        self.weight = weight        # fn(ip, element value) -> z3 term
+        self.nonneg = nonneg
+
+    def zero(self):
+        return z3.IntVal(0) if self.sort == IntSort else z3.Empty(BytesSort)
+
+    def combine(self, a, b):
+        return a + b if self.sort == IntSort else ops.mk_concat([a, b])
+
+
+MEASURES = {}
+
+
+def define_measure(name, sort, weight, nonneg=True):
+    MEASURES[name] = Measure(name, sort, weight, nonneg)
+
+
+def meas_append(ip, lst, x):
+    for name in list(lst.meas):
+        m = MEASURES[name]
+        lst.meas[name] = z3.simplify(m.combine(lst.meas[name], m.weight(ip, x)))
+
+
+def meas_remove(ip, lst, el):
+    for name in list(lst.meas):
+        m = MEASURES[name]
+        if m.sort == IntSort:
+            lst.meas[name] = z3.simplify(lst.meas[name] - m.weight(ip, el))
+        else:
+            del lst.meas[name]
+
+
 class DictView:
     def __init__(self, d, kind):
         self.d = d
@@ -734,6 +770,9 @@ def setitem(ip, v, k, val):
         if v.tag == 'bytearray':
             xt = ops.term(val, 'int')
             ctx.raise_if(ops.sbool(z3.Or(xt < 0, xt > 255)), 'ValueError', 'byte must be in range(0, 256)')
+        if v.meas:
+            meas_remove(ip, v, ip.wrap(z3.Select(v.arr, i), v.elem))
+            meas_append(ip, v, val)
         v.arr = z3.Store(v.arr, i, ip.unwrap(val, v.elem))
         return
     if isinstance(v, ByteArray):
@@ -826,18 +865,37 @@ class EnumFacts:
     """K = list(d): K enumerates dom(d) without repetition.
     witness(s) gives the index j_s with  s in dom <=> 0<=j_s<len(K) and K[j_s]=s ;
     every read K[i] instantiates  dom(K[i])  and  K[i]=s => i=j_s  for the witnesses asked so far."""
-    def __init__(self, dom, kkind, arr, n):
+    def __init__(self, dom, kkind, arr, n, key_inv=None):
         self.dom = dom
         self.kkind = kkind
         self.arr = arr
         self.n = n
         self.witnesses = []      # (key term, index term)
         self.reads = []
+        self.indices = []        # Skolem positions registered by add_index
+        self.key_inv = key_inv
+
+    def add_index(self, ip, j):
+        """instantiate the enumeration contract at an arbitrary position j: K[j] is a key (for 0<=j<n), distinct positions
+        hold distinct keys (instantiated against every later read)"""
+        n = self.n
+        inr = z3.And(j >= 0, j < n)
+        kj = z3.Select(self.arr, j)
+        ip.ctx.assume(z3.Implies(inr, z3.Select(self.dom, kj)))
+        if self.key_inv is not None:
+            ip.ctx.assume(z3.Implies(inr, self.key_inv(kj)))
+        for i in self.reads:
+            ip.ctx.assume(z3.Implies(z3.And(inr, z3.Select(self.arr, i) == kj), i == j))
+        for k, jw in self.witnesses:
+            ip.ctx.assume(z3.Implies(z3.And(inr, kj == k), j == jw))
+        self.indices.append(j)
 
     def witness(self, ip, key_t):
         for k, j in self.witnesses:
             if k.eq(key_t):
                 return j
+        if self.key_inv is not None:
+            ip.ctx.assume(z3.Implies(z3.Select(self.dom, key_t), self.key_inv(key_t)))
         j = ip.ctx.fresh('j_wit', IntSort)
         n = self.n
         ip.ctx.assume(z3.Select(self.dom, key_t) == z3.And(j >= 0, j < n, z3.Select(self.arr, j) == key_t))
@@ -848,9 +906,14 @@ class EnumFacts:
 
     def on_read(self, ip, seq, i, el):
         self.reads.append(i)
-        ip.ctx.assume(z3.Select(self.dom, z3.Select(self.arr, i)))
+        ki = z3.Select(self.arr, i)
+        ip.ctx.assume(z3.Select(self.dom, ki))
+        if self.key_inv is not None:
+            ip.ctx.assume(self.key_inv(ki))
         for k, j in self.witnesses:
-            ip.ctx.assume(z3.Implies(z3.Select(self.arr, i) == k, i == j))
+            ip.ctx.assume(z3.Implies(ki == k, i == j))
+        for j in self.indices:
+            ip.ctx.assume(z3.Implies(z3.And(j >= 0, j < self.n, ki == z3.Select(self.arr, j)), i == j))
 
 
 def symmap_keys(ip, m):
@@ -860,7 +923,7 @@ def symmap_keys(ip, m):
     if m.size is not None:
         ip.ctx.assume(n == m.size)
     ip.ctx.assume(n >= 0)
-    return SymSeq(arr, n, m.kkind, EnumFacts(m.dom, m.kkind, arr, n))
+    return SymSeq(arr, n, m.kkind, EnumFacts(m.dom, m.kkind, arr, n, m.key_inv))
 
 
 def dictview_list(ip, view):
@@ -915,7 +978,10 @@ def m_list_append(ip, lst, x):
     if isinstance(lst, PyList):
         lst.items.append(x)
     else:
-        lst.arr = z3.Store(lst.arr, lst.n, ip.unwrap(x, lst.elem))
+        xt = ip.unwrap(x, lst.elem)
+        if lst.meas:
+            meas_append(ip, lst, ip.wrap(xt, lst.elem) if lst.elem.ty == 'obj' else x)
+        lst.arr = z3.Store(lst.arr, lst.n, xt)
         lst.n = lst.n + 1
     return None
 
@@ -935,6 +1001,8 @@ def m_list_pop(ip, lst, idx=-1):
     ctx.raise_if(ops.sbool(z3.Or(i < 0, i >= n)), 'IndexError')
     el = ip.wrap(z3.Select(lst.arr, i), lst.elem)
     old = lst.copy()
+    if lst.meas:
+        meas_remove(ip, lst, el)
     j = z3.Int('j!pop')
     a0 = lst.arr
     ci = i.as_long() if z3.is_int_value(z3.simplify(i)) else None
@@ -983,6 +1051,8 @@ def m_list_clear(ip, lst):
         lst.items = []
     else:
         lst.n = z3.IntVal(0)
+        for name in list(lst.meas):
+            lst.meas[name] = MEASURES[name].zero()
 
 
 def m_list_remove(ip, lst, x):
@@ -1087,7 +1157,7 @@ def m_dict_copy(ip, d):
         n.keys = list(d.keys)
         n.vals = list(d.vals)
         return n
-    return SymMap(d.dom, d.val, d.kkind, d.vkind, d.size)
+    return SymMap(d.dom, d.val, d.kkind, d.vkind, d.size, d.key_inv)
 
 
 DICT_METHODS = {'get': m_dict_get, 'items': m_dict_items, 'keys': m_dict_keys, 'values': m_dict_values,
@@ -1151,10 +1221,10 @@ def m_str_encode(ip, s, enc='utf-8', errors='strict'):
 
 def m_bytes_join(ip, sep, it):
     if isinstance(it, SymSeq):
-        hk = ip.hooks.get('bytes.join')
-        if hk is not None:
-            return hk(ip, sep, it)
-        raise Unsupported('join over a symbolic list needs a measure hook')
+        if isinstance(sep, bytes) and sep == b'' and 'concat' in it.meas:
+            used(ip, "b''.join(list): the concatenation measure of the list (maintained at every append)")
+            return Sym(it.meas['concat'], 'bytes')
+        raise Unsupported("join over a symbolic list needs the 'concat' measure")
     items = ip.iter_concrete(it)
     if isinstance(sep, bytes) and len(sep) == 0:
         for x in items:
